@@ -6,6 +6,26 @@ import os
 ROOT = os.path.dirname(os.path.dirname(os.path.abspath(__file__)))
 
 CHECKS = {
+    "C12": dict(
+        cat="model_checking", engine="Gates",
+        text="spec/Gates.tla models every parser's open sequence as a chain of gates in code order and TLC checks AcceptImpliesSupported, "
+             "RejectBeforeServe and RejectNamesFirstBadGate over all feature vectors with at most two bad gates (10 parsers); every vector "
+             "is realised on an otherwise valid encoder output and opened by the real parser; every single-gate fault is expanded to every "
+             "concrete value of its class (all single-bit flips of each magic, version / geometry / method values, image types, cipher "
+             "names, keystore modes, locator kinds); the all-ok vector must open and serve data.",
+        note="any exception from the constructor/open call counts as refusal; one model gate per code gate named in the property",
+        technique="TLA+ gate-chain spec + TLC enumeration of fault vectors, replay of concrete faulty inputs into the parsers",
+        design="5/C12"),
+    "C14": dict(
+        cat="model_checking", engine="Meta",
+        text="spec/Meta.tla models the byte layouts of QCOW2 header extensions and of the snapshot table (padding, variable-size extra "
+             "data, strings) with a transcription of the parser's walks (ExposedEqualsStored) and structures stored twice with sequence "
+             "numbers (HighestSeqWins); every enumerated record list is encoded into real QCOW2/VHDX files and the exposed attributes "
+             "compared; for every format stored values of every exposed field (sizes, units, ids, UTF-16 locator entries, descriptor "
+             "key/values and extent lines, Parallels storages/images/snapshots) are recorded with the exposed values and judged by TLC.",
+        note="normalised fields (QCOW2 backing format is upper-cased) are compared case-insensitively; values cross to TLC as text",
+        technique="TLA+ layout spec + TLC enumeration replayed into the readers, recorded metadata facts validated by TLC",
+        design="5/C14"),
     "C11": dict(
         cat="fault_enumeration", engine="Fault",
         text="spec/Progress.tla models the reference walks (Parallels snapshot chain, Hyper-V object-table discovery) one action per loop "
